@@ -70,7 +70,16 @@ ASSUMPTIONS = [
 ]
 SHARDS = {"quick": 4, "thorough": 16}
 BUDGET_S = {"quick": 75, "thorough": 720}
-FLOORS = {}
+FLOORS = {"c18.configs": 180, "c18.dump.compares": 250, "c18.fe.seg": 40, "c18.fe.serialmp": 20, "c18.fe.buffered": 40,
+          "c18.fe.async": 45, "c18.fe.mp": 18, "c18.mp.completed": 18, "c18.storage.file": 40, "c18.storage.nommap": 40,
+          "c18.storage.ram": 40, "c18.storage.toram": 40, "c18.packing.compound": 90, "c18.packing.loose": 90,
+          "c18.final.multisegment": 120, "c18.model.checks": 45, "c18.model.probe_checks": 350,
+          "c18.probe.compares": 2000, "c18.score.compares": 4000, "c18.stats.compares": 90, "c18.optimize.compares": 60,
+          "c18.async.blocked_txs": 60, "c18.async.order.blocked.retries0.release_before_commit": 15,
+          "c18.async.order.blocked.retries3.release_after_commit": 15, "c18.async.order.free.retries0.release_-": 20,
+          "c18.bw.view_checks": 190, "c18.bw.dump_checks": 45, "c18.bw.close_checks": 30, "c18.bw.ops_with_buffered_docs": 25,
+          "c18.bw.thread_runs": 12, "c18.bw.commit_overlapped_add": 8, "c18.bw.thread_deletes_updates": 30,
+          "c18.bw.timer_flush_observed": 6}
 
 MP_TIMEOUT_S = 60
 
@@ -955,6 +964,9 @@ def case_bw_sequential(ctx, idx, rng):
         shutil.rmtree(tmpdir, ignore_errors=True)
 
 
+_seen_orders = set()
+
+
 def case_bw_threads(ctx, idx, rng):
     """Adder threads share one BufferedWriter while another thread fires commit() the way the flush timer does."""
     from whoosh import writing
@@ -1061,6 +1073,9 @@ def case_bw_threads(ctx, idx, rng):
                 ok, _ = ctx.guard("c18.bw.exec", ww, bw.close)
                 if ok:
                     bw_after_close(ctx, ww, st, cfg, live, opts, "threads")
+        if order not in _seen_orders:
+            _seen_orders.add(order)
+            ctx.count("c18.bw.distinct_thread_event_orders")
         ctx.case(("bw-threads", order), True,
                  sample={"variant": "bw threads", "event_order": order, "overlapped": overlapped} if idx % 9 == 0 else None)
     finally:
@@ -1136,7 +1151,7 @@ def case_bw_timer(ctx, idx, rng):
 def run(ctx):
     from vf import model
     model.check_analysis()
-    for idx in ctx.cases(quick=60, thorough=420):
+    for idx in ctx.cases(quick=60, thorough=300):
         rng = ctx.rng(idx)
         ctx.reseed_global(idx)
         k = idx % 12
